@@ -1,5 +1,5 @@
 """C07 family 1: IPv6 unicast MP_REACH (next hop with / without link-local) and MP_UNREACH."""
-from props.c07 import Family, ip6, caddr, cprefix, mask, coq_opt, coq_list, coq_bytes
+from props.c07 import Family, ip6, caddr, cprefix, mask, coq_opt, coq_list, coq_bytes, size_targets, fill_sizes
 
 K_LOW = 'C07-ipv6-unicast-low-address-as-ipv4'
 K_DD = 'C07-ipv6-unicast-trailing-double-default-dropped'
@@ -66,6 +66,20 @@ class V6Unicast(Family):
         for rs in ([d], [d, d], [x, d], [d, x], [x, d, d], [d, d, x], [d, d, d], [x, (0, 8)], [(0, 8)]):
             add('reach', rs, 0x20010db8 << 96 | 1, None)
             add('unreach', rs)
+        # ---- encoded-size boundaries: attribute value length (a route takes 1 + ceil(l/8) octets; l >= 1)
+        for target, ok in size_targets(ctx):
+            for kind in ('reach', 'unreach'):
+                g, ll = nh()
+                g |= 1 << 100
+                if kind == 'unreach':
+                    ll = None
+                room = target - (3 if kind == 'unreach' else 5 + (32 if ll is not None else 16))
+                rs = [rnd_route(rng.randrange(8 * (k - 2) + 1, 8 * (k - 1) + 1))
+                      for k in fill_sizes(room, range(2, 18), rng)]
+                add(kind, rs, g if kind == 'reach' else None, ll)
+                cases[-1]['huge'] = target > 60000
+                if not ok:
+                    cases[-1]['unencodable'] = 'attribute value of %d octets' % target
         add('reach', [], 0x20010db8 << 96 | 1, None)
         add('unreach', [], empty=True)
         return cases
